@@ -853,6 +853,8 @@ class Engine:
         if isinstance(f, ast.Attribute):
             base = self.sev(f.value, env)
             args = [self.sev(a, env) for a in node.args]
+            if isinstance(base.t, TStr) and f.attr == 'split' and len(args) == 1 and isinstance(args[0].t, TStr):
+                return self.split_value(st, base, args[0])
             if isinstance(base.t, TStr) and f.attr == 'join' and len(args) == 1 and isinstance(args[0].t, TList) \
                     and hasattr(self, 'join_value'):
                 # sep.join(list): the same uninterpreted function of (separator, list) as in code mode
@@ -954,6 +956,15 @@ class Engine:
             return mk_tuple([tuple_get(a, i) for i in range(len(a.t.elems))] +
                             [tuple_get(b, i) for i in range(len(b.t.elems))])
         raise OutOfSubset('binop %s on %s,%s' % (type(op).__name__, a.t, b.t), node)
+
+    def split_value(self, st, s, sep):
+        """s.split(sep) as a function of (s, sep) - the same operands give the same list in code and in a
+        clause - with the length fact len == count(sep) + 1."""
+        r = self.call_ufunc_auto('str_split', [s, sep], TList(STR))
+        st.assume(list_len(r) >= 1)
+        cnt = self.call_ufunc_auto('str_count', [s, sep], INT, st=st, facts='count')
+        st.assume(list_len(r) == cnt.e + 1)
+        return r
 
     def str_repeat(self, st, s, n):
         """s * n: exact for n <= 0; for n > 0 an uninterpreted result with length and
